@@ -36,6 +36,16 @@ var ckRt bool
 // ckRec: some panic was recovered by the program.
 var ckRec bool
 
+// ckSwallow: a deferred call that does NOT recover ran while the function was panicking (Go re-panics after it).
+var ckSwallow bool
+
+func ck_swallow(r any) {
+	if _, ok := r.(tooLong); ok {
+		panic(r)
+	}
+	ckSwallow = true
+}
+
 func ck_rt(r any) {
 	if _, ok := r.(tooLong); ok {
 		panic(r)
@@ -146,7 +156,7 @@ func main() {
 	defer out.Flush()
 	for _, e := range table {
 		for ti, t := range e.tuples {
-			ckOvf, ckRt, ckRec, ckLong, ckSteps = false, false, false, false, 0
+			ckOvf, ckRt, ckRec, ckSwallow, ckLong, ckSteps = false, false, false, false, false, 0
 			rc := ""
 			if e.fC != nil {
 				rc = call(e.resetC, e.fC, t)
@@ -169,6 +179,9 @@ func main() {
 			if ckRec {
 				ov += 8
 			}
+			if ckSwallow {
+				ov += 16
+			}
 			fmt.Fprintf(out, "%s %d %d %s | %s\n", e.tag, ti, ov, rp, rc)
 		}
 	}
@@ -180,6 +193,7 @@ type goRes struct {
 	ovf     bool
 	rtrec   bool   // a run-time error was recovered on the Go side
 	rec     bool   // some panic was recovered on the Go side
+	swallow bool   // a non-recovering deferred call ran during a panic
 	plain   string // "ok <canon>" or "panic"
 	checked string
 }
@@ -334,7 +348,7 @@ func runBatch(dir string, progs []*Prog) (map[string]goRes, map[int]string, erro
 				continue
 			}
 			fl, _ := strconv.Atoi(fs[3])
-			res[fs[0]+" "+fs[1]+" "+fs[2]] = goRes{long: fl&4 != 0, ovf: fl&1 != 0, rtrec: fl&2 != 0, rec: fl&8 != 0, plain: fs[4], checked: parts[1]}
+			res[fs[0]+" "+fs[1]+" "+fs[2]] = goRes{long: fl&4 != 0, ovf: fl&1 != 0, rtrec: fl&2 != 0, rec: fl&8 != 0, swallow: fl&16 != 0, plain: fs[4], checked: parts[1]}
 		}
 		return res, dropped, nil
 	}
